@@ -686,8 +686,16 @@ func (m *Monitor) onBecameLeader(ev *Event, n *NodeSh, term uint64) {
 			}
 		}
 		m.Counts["c09.election_quorum_checks"]++
-		if !ev.St.Cfg.Members[n.ID] {
-			m.violate(ev, []string{"C09", "C02"}, "non-voter-became-leader", n.ID, "%s became leader of term %d although it is not a voter in its own configuration %s", n.ID, term, ev.St.Cfg.Canon())
+		// A node that its own latest configuration removes (or demotes) may still lead while that configuration is
+		// not committed and the last committed one has it as a voter: it may be the only holder of the configuration
+		// entry, so nobody else can be elected (Raft thesis 4.2.2). Its own vote does not count (it is not among the
+		// voters counted below) and it is elected by a majority of the voters of the configuration it uses.
+		transitional := !ev.St.Cfg.Members[n.ID] && ev.St.CCfg != nil && ev.St.CCfg.Index != ev.St.Cfg.Index && ev.St.CCfg.Members[n.ID]
+		if transitional {
+			m.Counts["c09.leader_removed_by_its_uncommitted_configuration"]++
+		}
+		if !ev.St.Cfg.Members[n.ID] && !transitional {
+			m.violate(ev, []string{"C09", "C02"}, "non-voter-became-leader", n.ID, "%s became leader of term %d although it is not a voter in its own configuration %s (nor a voter of its committed configuration with that change still uncommitted)", n.ID, term, ev.St.Cfg.Canon())
 		} else if cnt*2 <= len(voters) {
 			var gl []string
 			for g := range got {
